@@ -230,10 +230,19 @@ func (e *Exec) execInstr(f *frame, in ssa.Instruction, h *Heap, g string) (*Heap
 					e.s.assert(implies(and(g, dom), t))
 				}
 			}
+			lkv := Val{T: e.named("lk", mt.Elem(), val), Typ: mt.Elem()}
+			if e.pure == 0 {
+				// what a map holds existed before (or was published): it is not one of this function's
+				// still-private allocations (a variadic pack, a fresh buffer)
+				e.notPrivate(lkv)
+				if _, isSl := mt.Elem().Underlying().(*types.Slice); isSl {
+					e.wf(lkv)
+				}
+			}
 			if x.CommaOk {
-				e.set(f, x, Val{Tup: []Val{{T: e.named("lk", mt.Elem(), val), Typ: mt.Elem()}, {T: dom, Typ: types.Typ[types.Bool]}}})
+				e.set(f, x, Val{Tup: []Val{lkv, {T: dom, Typ: types.Typ[types.Bool]}}})
 			} else {
-				e.set(f, x, Val{T: e.named("lk", mt.Elem(), val)})
+				e.set(f, x, Val{T: lkv.T})
 			}
 		} else {
 			// string index handled as Index; Lookup on string
